@@ -966,13 +966,53 @@ def _pop(it, lv, ca, node):
     st = it.st
     o = lv.bound
     if ca.pos:
-        raise Unsupported("pop(index)")
+        return _pop_at(it, o, ca.pos[0], node)
     arr, lo, hi = st.get(o, "$arr"), st.get(o, "$lo"), st.get(o, "$hi")
     if not st.decide(hi > lo, f"pop@{it.pos(node)}:nonempty"):
         raise PyRaise(it.new_exc("IndexError"), "pop from empty")
     st.instantiate_at(st.simp(hi - 1))
     st.put(o, "$hi", st.simp(hi - 1))
     return st.simp(z3.Select(arr, hi - 1))
+
+
+def _norm_index(it, idx, n, clamp: bool):
+    """Python index normalisation for a sequence of length n (negative counts from the end; insert clamps)."""
+    if it.kind(idx) not in ("int", "bool"):
+        raise Unsupported("sequence index that is not an int")
+    i = it.as_num(idx)[0]
+    j = z3.If(i < 0, n + i, i)
+    return z3.If(j < 0, 0, z3.If(j > n, n, j)) if clamp else j
+
+
+def _pop_at(it, o, idx, node):
+    """list.pop(i): removes and returns the i-th item, later items move one position to the left (T-COLL)."""
+    st = it.st
+    arr, lo, hi = st.get(o, "$arr"), st.get(o, "$lo"), st.get(o, "$hi")
+    n = hi - lo
+    j = _norm_index(it, idx, n, clamp=False)
+    if not st.decide(z3.And(0 <= j, j < n), f"pop(i)@{it.pos(node)}:in-range"):
+        raise PyRaise(it.new_exc("IndexError"), "pop index out of range")
+    p = st.simp(lo + j)
+    st.instantiate_at(p)
+    item = st.simp(z3.Select(arr, p))
+    i = z3.Int("i!popi")
+    st.put(o, "$arr", z3.Lambda([i], z3.If(i >= p, z3.Select(arr, i + 1), z3.Select(arr, i))))
+    st.put(o, "$hi", st.simp(hi - 1))
+    return item
+
+
+@spec("list.insert")
+def _list_insert(it, lv, ca, node):
+    """list.insert(i, x): x ends up at (clamped) position i, items from there on move one position to the right."""
+    st = it.st
+    o = lv.bound
+    arr, lo, hi = st.get(o, "$arr"), st.get(o, "$lo"), st.get(o, "$hi")
+    j = _norm_index(it, ca.pos[0], hi - lo, clamp=True)
+    p = st.simp(lo + j)
+    i = z3.Int("i!ins")
+    st.put(o, "$arr", z3.Lambda([i], z3.If(i == p, ca.pos[1], z3.If(i > p, z3.Select(arr, i - 1), z3.Select(arr, i)))))
+    st.put(o, "$hi", st.simp(hi + 1))
+    return V.VNone
 
 
 @spec("deque.extend", "list.extend")
@@ -1281,6 +1321,25 @@ def _fut_exception(it, lv, ca, node):
     raise PyRaise(it.new_exc("InvalidStateError"), "future.exception(): not done")
 
 
+is_awaitable = z3.Function("is_awaitable", Val, z3.BoolSort())
+
+
+@spec("inspect.isawaitable")
+def _isawaitable(it, lv, ca, node):
+    from .interp import AwaitableV
+    v = ca.pos[0]
+    k = it.kind(v)
+    if k == "function" and isinstance(it.st.fun_of(v), AwaitableV):
+        return it.mk_bool(True)
+    if k == "ref":
+        c = it.st.class_id_of(v)
+        if c is not None and it.ct.is_sub(c, it.ct.id("Future")):
+            return it.mk_bool(True)
+    if k in ("none", "int", "float", "bool", "str", "tuple", "type"):
+        return it.mk_bool(False)
+    return V.VBool(is_awaitable(v))           # an arbitrary object may or may not define __await__
+
+
 def awaitable_of(it, v, node=None):
     from .interp import AwaitableV
     if it.kind(v) == "ref":
@@ -1292,7 +1351,18 @@ def awaitable_of(it, v, node=None):
         r = cc.awaitable_of(it, v, node)
         if r is not None:
             return r
+    if it.st.entails(is_awaitable(v)):
+        return AwaitableV("opaque", {"value": v})     # an arbitrary awaitable object: awaiting it yields anything
     raise Unsupported(f"await of a value that is not a known awaitable at line {getattr(node, 'lineno', '?')}")
+
+
+@spec("await:opaque")
+def _await_opaque(it, aw, idx, node):
+    """Awaiting an arbitrary awaitable: any value or any exception (nothing is known about it)."""
+    st = it.st
+    if st.fork(f"await#{idx}:awaitable-object", [("yields-a-value", True), ("raises", True)]) == 0:
+        return st.fresh_val("awaited")
+    raise PyRaise(it.fresh_exception("awaited.exc"), "the awaited object raised")
 
 
 @spec("await:future")
